@@ -36,8 +36,14 @@ FoldWriters(c, s, p) == IF p > Len(c.stmts) THEN s
                         ELSE FoldWriters(c, IF c.stmts[p].kind = "select" THEN s ELSE ApplyStmt(c.stmts[p], s), p + 1)
 Final(c) ==
   LET bad == {p \in 1..Len(c.stmts) :
-                \/ c.results[p].phase # "done"
-                \/ (c.stmts[p].kind = "select" /\ LET base == BaseRows(c.stmts[p], c.store) IN
+                \* the statement run alone (recorded beforehand, sequentially): same outcome, same rows, and the error text the
+                \* caller prints after binding ITS query is the one it prints alone (no other statement's text or caret in it)
+                \/ (c.results[p].hasalone /\ (\/ c.results[p].phase # c.results[p].alonephase
+                                               \/ c.results[p].rendered # c.results[p].alonerendered
+                                               \/ (c.stmts[p].kind = "select" /\ c.results[p].rows # c.results[p].alonerows)))
+                \/ (~c.results[p].hasalone /\ c.results[p].phase # "done")
+                \* and, where the contract models the statement, what the contract gives for it alone on the initial store
+                \/ (c.stmts[p].kind = "select" /\ c.results[p].phase = "done" /\ LET base == BaseRows(c.stmts[p], c.store) IN
                        ModelledB(c.stmts[p], c.store, base) /\ ~SelectOKB(c.stmts[p], base, c.results[p].rows))}
       want == FoldWriters(c, c.store, 1)
   IN IF c.sched # <<>> /\ [x \in 1..Len(c.events) |-> c.events[x].p] # c.sched THEN "drift-call-order-differs-from-the-model-schedule"
